@@ -62,6 +62,45 @@ module Conv = struct
   let b2s b = if b then "true" else "false"
 end
 
-(* float ops: filled in with the Fp model *)
-let run_case (f : string array) : string option = None
+(* float ops of the Fp model (stage-wise); output formats are those of harness/run_fp.go.
+   "f64" and "dec f64" are handled by driver2.ml (x_ReadFloat64 / x_DecodeFloat64). *)
+open Conv
+
+let fuel_msg = "abn # model out of fuel"
+
+let run_case (f : string array) : string option =
+  match f.(0) with
+  | "fp_parse" ->
+    Some (match parseJSONFloatPrefix_m fpT (unhex f.(1)) with
+        | Some ((b, n), None) -> Printf.sprintf "ok %s %s" (string_of_z b) (string_of_z n)
+        | Some (_, Some _) -> "err"
+        | None -> fuel_msg)
+  | "fp_rf" ->
+    let r = readFloat_m (unhex f.(1)) in
+    Some (if not r.rf_ok then "notok"
+          else Printf.sprintf "ok %s %s %s %s %s" (string_of_z r.rf_mant) (string_of_z r.rf_exp)
+              (b2s r.rf_neg) (b2s r.rf_trunc) (string_of_z r.rf_p))
+  | "fp_exact" ->
+    Some (match atof64exact_m fpT (z_of_string f.(1)) (z_of_string f.(2)) (f.(3) = "true") with
+        | Some b -> "ok " ^ string_of_z b
+        | None -> "notok")
+  | "fp_el" ->
+    Some (match eiselLemire64_m fpT (z_of_string f.(1)) (z_of_string f.(2)) (f.(3) = "true") with
+        | Some b -> "ok " ^ string_of_z b
+        | None -> "notok")
+  | "fp_dec" ->
+    Some (match set_m (unhex f.(1)) with
+        | None -> "notok"
+        | Some d ->
+          (match floatBits_m fpT d with
+           | Some (b, ovf) -> Printf.sprintf "ok %s %s" (string_of_z b) (b2s ovf)
+           | None -> fuel_msg))
+  | "fp_strconv" ->   (* the SPECIFICATION: round_ne of the literal's exact value (FpSpec.parse_spec_fast,
+                         proved equal to parse_spec in FpFacts.parse_spec_fast_ok) vs strconv.ParseFloat *)
+    Some (match parse_spec_fast (unhex f.(1)) with
+        | Some (b, false) -> "ok " ^ string_of_z b
+        | Some (_, true) -> "range"
+        | None -> "syntax")
+  | _ -> None
+
 let dec_case (f : string array) : string option = None
